@@ -2,7 +2,7 @@
    This file: the CURRENT transaction metadata and the history tables (table level). The point-in-time read
    queries (which table/column/feature they test) are exercised by the read tie; see C17 notes in DESIGN.md. *)
 From Coq Require Import List ZArith String Bool Lia.
-From LV Require Import Base.Util Ledger.Types Ledger.Core Ledger.Invariants Ledger.ReplayProofs.
+From LV Require Import Base.Util Ledger.Types Ledger.Core Ledger.Invariants Ledger.ReplayProofs Ledger.Reads Ledger.IkProofs Ledger.HistProofs.
 Import ListNotations.
 Open Scope Z_scope.
 
@@ -59,6 +59,29 @@ Theorem C17_tx_history_revision : forall f s t fn,
   else s_thist s.
 Proof. reflexivity. Qed.
 Print Assumptions C17_tx_history_revision.
+
+(* HISTORY REFLECTS THE PAST.  Split any history into the operations run at clock times <= t (h1) and those run after t (h2).
+   With TRANSACTION_METADATA_HISTORY = SYNC, the metadata the FINAL state reports at time t for a transaction that existed
+   and was effective at t is exactly the metadata that transaction had in the state reached at t (run f h1): later saves,
+   deletes and reverts do not leak into the past, earlier ones are all there.  [thist_at] is what the point-in-time
+   transaction read returns as metadata (Ledger/Reads.v: read_transactions, tied to the real read path by the reads tie). *)
+Theorem C17_tx_metadata_as_of : forall f h1 h2 t x,
+  f_tx_hist f = true -> Forall (fun no => fst no <= t) h1 -> Forall (fun no => t < fst no) h2 ->
+  In x (s_txs (run f h1)) -> t_ts x <= t ->
+  thist_at (s_thist (run f (h1 ++ h2))) (t_id x) t = t_meta x.
+Proof. exact tx_metadata_as_of. Qed.
+Print Assumptions C17_tx_metadata_as_of.
+
+(* ... and that is what the point-in-time listing shows for that transaction; with the feature DISABLED it shows the current metadata *)
+Theorem C17_pit_read_uses_history : forall f s t r, In r (read_transactions f s (Some t)) ->
+  exists x, In x (s_txs s) /\ tr_id r = t_id x /\ t_ts x <= t /\
+            tr_meta r = if f_tx_hist f then thist_at (s_thist s) (t_id x) t else t_meta x.
+Proof.
+  intros f s t r H. unfold read_transactions in H. apply in_map_iff in H. destruct H as (x & <- & Hx).
+  apply filter_In in Hx. destruct Hx as [Hx Hp]. exists x. cbn [tr_id tr_meta]. unfold tx_hist_flag. cbn [le_opt] in Hp.
+  repeat split; [exact Hx | lia].
+Qed.
+Print Assumptions C17_pit_read_uses_history.
 
 Local Open Scope string_scope.
 Example C17_example :
